@@ -6,7 +6,7 @@ WRAP = ['pthread_cond_wait', 'pthread_cond_signal']
 
 RULE = ('histories over one file-backed store in a private directory: set / set-multiple / remove / clear / get / '
         'save+synchronise / save interrupted after k system calls (every k from 0 to all) followed by a process '
-        'restart / bursts of 2-4 saves (one or two files) with the saver thread held inside the k-th system call of the first / save+synchronise with n spurious wake-ups of pthread_cond_wait and a slow disk / save whose writes fail with ENOSPC from the k-th on / load / restart / hand-written settings files / universe appear-rename-teardown / device '
+        'restart / bursts of 2-4 saves (one or two files) with the saver thread held inside the k-th system call of the first / save+synchronise with n spurious wake-ups of pthread_cond_wait and a slow disk / save whose writes fail with ENOSPC from the k-th on / load / restart / repeated Load() and LoadFromFile() on one long-lived object between unsaved edits and same-length saves / hand-written settings files / universe appear-rename-teardown / device '
         'register-patch-priority-unregister-shutdown; keys and values aimed at the separators (=, #, blanks, empty, '
         'prefixes of each other, bytes above 127), universe ids at 0, 2^31-1, 2^31, 2^32-1, priorities at 0, 200, '
         '201, 255; a minority of inputs outside the side conditions (untrimmed, key with =, embedded newline). '
@@ -221,6 +221,30 @@ def gen_cases(rng, tier):
     for i in range(60 * scale):
         ops = fill(rng, rng.randint(1, 3)) + [rng.choice(['l', 'L'])] + fill(rng, rng.randint(0, 2))
         ops += [rng.choice(['V', 'l', 'L'])] + fill(rng, rng.randint(0, 2)) + [rng.choice(['l', 'L', 'V'])]
+        yield ' '.join(ops)
+    # 4b. ONE long-lived store object: repeated Load() / LoadFromFile() (and the Load() a new
+    #     DeviceManager does on it) interleaved with unsaved edits and with saves that replace a value
+    #     by one of the same length (file size and, within a second, mtime unchanged)
+    for i in range(90 * scale):
+        keys = [rkey(rng) for _ in range(rng.randint(1, 3))]
+        ln = rng.choice([0, 1, 2, 5])
+        def same_len(tag):
+            return (tag * (ln + 1))[:ln]
+        ops = ['S:%s:%s' % (hx(k), hx(same_len('a'))) for k in keys] + ['V', rng.choice(['l', 'lf', 'L', 'l'])]
+        for step_no in range(rng.randint(2, 6)):
+            w = rng.random()
+            if w < 0.45:      # unsaved edit, then load again: the edit must be gone
+                ops.append(rng.choice(['S:%s:%s' % (hx(rng.choice(keys)), hx(same_len(rng.choice('bcdxyz')))),
+                                       'R:%s' % hx(rng.choice(keys)), 'C', setop(rng), 'M:%s:%s' % (hx(rng.choice(keys)), hx('m'))]))
+                ops.append(rng.choice(['l', 'l', 'lf']))
+            elif w < 0.8:     # saved same-length change, then an unsaved one, then load: the saved one must be seen
+                k = rng.choice(keys)
+                ops += ['S:%s:%s' % (hx(k), hx(same_len(rng.choice('bcdefg')))), rng.choice(['V', 'Y:0']),
+                        'S:%s:%s' % (hx(k), hx(same_len(rng.choice('qrstuv')))), rng.choice(['l', 'l', 'lf'])]
+            elif w < 0.9:
+                ops.append('P:%s:k/k/k:k/k/k:k/k/k:k/k/k' % hx('d'))
+            else:
+                ops.append(rng.choice(['l', 'lf', 'G:%s' % hx(keys[0])]))
         yield ' '.join(ops)
     # 5. inputs outside the side conditions
     for i in range(150 * scale):
